@@ -585,6 +585,20 @@ pub fn run(p: &Params) -> Outcome {
     total
 }
 
+/// An input of the C11 fuzz target: byte 0 selects the decodable type, the rest is the data.
+pub fn fuzzcase(hexdata: &str) -> Outcome {
+    let mut out = Outcome::default();
+    let data = crate::util::unhex(hexdata);
+    if data.is_empty() {
+        return out;
+    }
+    let table = cases();
+    let case = &table[data[0] as usize % table.len()];
+    out.sample(format!("{} {}", case.name, hex(&data[1..])));
+    check_one(case, &data[1..], &mut out, "fuzz-artifact");
+    out
+}
+
 pub fn replay(name: &str, hexdata: &str) -> Outcome {
     let mut out = Outcome::default();
     let data = crate::util::unhex(hexdata);
